@@ -127,6 +127,8 @@ class Sim:
         self.model_static = set(self.tracks.features) - set(self.tracks.annotators.all_features)
         self.issued_node_ids: list = []
         self.saves: dict = {}  # fmt -> acknowledged save record
+        self.exports: dict = {}  # fmt -> directory of the last acknowledged export
+        self.export_digest: dict = {}
         self.io = None  # persist.IO, attached by runner when needed
         self.restarts = 0
         self.recent: list = []
